@@ -386,7 +386,11 @@ Definition vp8_trees : list tree_desc :=
     (vp8_KEYFRAME_UV_MODE_TREE, vp8_KEYFRAME_UV_MODE_PROBS, 0) ]
   ++ map (fun p => (vp8_KEYFRAME_BPRED_MODE_TREE, p, 0)) (concat vp8_KEYFRAME_BPRED_MODE_PROBS)
   ++ map (fun p => (vp8_DCT_TOKEN_TREE, p, 0)) coeff_prob_rows
-  ++ map (fun p => (vp8_DCT_TOKEN_TREE, p, 2)) coeff_prob_rows.
+  ++ map (fun p => (vp8_DCT_TOKEN_TREE, p, 2)) coeff_prob_rows
+  (* 111..114: stress trees -- the token tree with every probability 255 (root, skip) and 1 (root, skip): a frame header can
+     set such probabilities, and only they make a single request consume more than 32 bits *)
+  ++ [ (vp8_DCT_TOKEN_TREE, repeat 255 11, 0); (vp8_DCT_TOKEN_TREE, repeat 255 11, 2);
+       (vp8_DCT_TOKEN_TREE, repeat 1 11, 0); (vp8_DCT_TOKEN_TREE, repeat 1 11, 2) ].
 
 (* entry points of the oracle (distinct names: the extraction is one flat OCaml file) *)
 Definition c15_model_run (data : list Z) (ops : list op) : res (list Z * bool) := run vp8_trees data ops.
